@@ -22,6 +22,7 @@ import os
 import re
 import shutil
 import tempfile
+import warnings
 
 import mc
 from mc import pool
@@ -55,6 +56,8 @@ GEOMETRIES = [
 PIC_NUMS = [0, 1, 1 << 31, (1 << 32) - 1]
 QUICK_MIXED_DEPTHS = (1, 7, 9, 10, 16, 17, 32, 33, 63, 64)
 QUICK_COMPARE_GEOMETRIES = (0, 2, 3, 6, 7)  # every format and both coding modes once
+
+MASK_DEPTHS = ((8, 8), (10, 10), (10, 8), (1, 1), (64, 64))
 
 BASE_FIELDS = [
     ("frame_width", None),
@@ -429,11 +432,19 @@ def run_compare(case, d, a_cache=None):
                 f.write(ref_encode(pic2, ref_dims(plain2, pcm2), padding=1))
     except Exception as e:  # noqa
         return ["write raised %s: %s" % (type(e).__name__, e)], "error"
+    maskfile = os.path.join(d, "mask.raw") if case.get("mask") else None
     try:
-        msg, code = compare_pictures(a, b)
+        if maskfile:
+            _unlink_pair(maskfile)
+            with warnings.catch_warnings():
+                warnings.simplefilter("ignore", RuntimeWarning)  # numpy cast warning while drawing a 64-bit mask
+                msg, code = compare_pictures(a, b, maskfile)
+        else:
+            msg, code = compare_pictures(a, b)
     except BaseException as e:  # noqa -- includes SystemExit from the tool
         return ["compare_pictures raised %s: %s" % (type(e).__name__, e)], "error"
     problems = []
+    # (the mask's own contents are outside C23's statement and are not judged here)
     lines = msg.split("\n")
     if expected[0] == "identical":
         if code != 0:
@@ -489,7 +500,103 @@ def run_compare(case, d, a_cache=None):
     return problems, expected[0] + (":" + expected[1] if expected[0] == "meta" else "")
 
 
+# ----------------------------------------------------------------------------
+# Histories on one shared, in-place edited VideoParameters object
+# ----------------------------------------------------------------------------
+
+# (geometry index, luma excursion, colour-difference excursion)
+HISTORY_FORMATS = [(1, 255, 255), (1, 1023, 1023), (1, 1023, 255), (5, 255, 255), (7, 255, 255), (1, 65535, 65535), (2, 131071, 255)]
+
+
+def run_history(case, d):
+    """A caller keeps ONE VideoParameters object and edits it in place between calls
+    (format A, then B, then C ...).  Every write / read / compare must behave as it would
+    with a fresh object: an earlier call must not leak into a later one."""
+    from vc2_conformance.file_format import read, write, read_metadata
+    from vc2_conformance.scripts.vc2_picture_compare import compare_pictures
+    from vc2_data_tables import PictureCodingModes
+
+    vp = None
+    problems = []
+    for i, fi in enumerate(case["formats"]):
+        gi, le, ce = HISTORY_FORMATS[fi]
+        geom = GEOMETRIES[gi]
+        pcm = geom[3]
+        plain = plain_vp(geom, le, ce)
+        fresh, _ = real_vp(plain)
+        if vp is None:
+            vp = fresh
+        elif case["reuse"] == "inplace":
+            for k in FIELD_NAMES:
+                vp[k] = fresh[k]
+        elif case["reuse"] == "metadata":
+            # the object handed back by the library for the previous file, edited in place
+            for k in FIELD_NAMES:
+                vp[k] = fresh[k]
+        dims = ref_dims(plain, pcm)
+        pic = make_picture("index", dims, i)
+        a = os.path.join(d, "h%d.raw" % i)
+        b = os.path.join(d, "h%db.raw" % i)
+        _unlink_pair(a)
+        _unlink_pair(b)
+        try:
+            write(pic, vp, PictureCodingModes(pcm), a)
+            with open(a, "rb") as f:
+                raw = f.read()
+            if raw != ref_encode(pic, dims):
+                problems.append("step %d (%r): raw bytes %s differ from the reference encoding %s" % (i, HISTORY_FORMATS[fi], raw.hex(), ref_encode(pic, dims).hex()))
+                break
+            pic_r, vp_r, pcm_r = read(a)
+            if pic_r != pic or dict(vp_r) != dict(fresh) or pcm_r != pcm:
+                problems.append("step %d (%r): read back differs from written" % (i, HISTORY_FORMATS[fi]))
+                break
+            # second picture differing in the last sample of each component
+            pic2 = {c: [list(r) for r in pic[c]] for c in COMPONENTS}
+            pic2["pic_num"] = i
+            want = {}
+            for c in COMPONENTS:
+                pic2[c][-1][-1] ^= 1
+                want[c] = 1
+            write(pic2, vp, PictureCodingModes(pcm), b)
+            msg, code = compare_pictures(a, b)
+            got = {}
+            for ln in msg.split("\n")[1:]:
+                m = LINE_RE.match(ln)
+                if m:
+                    got[m.group(1)] = 0 if m.group(2) == "Identical" else int(m.group(4))
+            if code != 4 or got != want:
+                problems.append("step %d (%r): compare of pictures differing in one sample per component: exit %r, counts %r (%r)" % (i, HISTORY_FORMATS[fi], code, got, msg))
+                break
+            msg, code = compare_pictures(a, a)
+            if code != 0:
+                problems.append("step %d: a file compared with itself: exit %r" % (i, code))
+                break
+            if case["reuse"] == "metadata":
+                with open(os.path.splitext(a)[0] + ".json", "rb") as f:
+                    vp, _pcm, _pn = read_metadata(f)
+        except Exception as e:  # noqa
+            problems.append("step %d (%r) raised %s: %s" % (i, HISTORY_FORMATS[fi], type(e).__name__, e))
+            break
+    return problems
+
+
+def history_cases(quick):
+    n = len(HISTORY_FORMATS)
+    out = []
+    for reuse in ("inplace", "metadata"):
+        for k in (2, 3):
+            for fs in itertools.product(range(n), repeat=k):
+                if all(fs[j] != fs[j + 1] for j in range(k - 1)):
+                    out.append({"kind": "history", "reuse": reuse, "formats": list(fs)})
+    return out
+
+
 def run_case(case, d, a_cache=None):
+    if case["kind"] == "history":
+        if a_cache is not None:
+            a_cache.clear()
+        problems = run_history(case, d)
+        return problems, "history-%d" % len(case["formats"])
     if case["kind"] == "roundtrip":
         if a_cache is not None:
             a_cache.clear()  # the round trip overwrites a.raw
@@ -622,6 +729,11 @@ def group_cases(group, quick):
                 c = dict(base)
                 c.update(kind="compare", pattern=pattern, pic_num=7, edit=e)
                 cases.append(c)
+                # the same comparison with a difference mask requested
+                if pattern == "index" and (ld, cd) in MASK_DEPTHS and e["type"] in ("none", "samples"):
+                    c = dict(c)
+                    c["mask"] = True
+                    cases.append(c)
     return cases
 
 
@@ -651,7 +763,7 @@ def _shard(arg):
     os.makedirs(d, exist_ok=True)
     a_cache = {}
     for g in groups:
-        for case in group_cases(g, _QUICK):
+        for case in (history_cases(_QUICK)[g[1] :: g[2]] if g[0] == "history" else group_cases(g, _QUICK)):
             problems, cls = run_case(case, d, a_cache)
             t.count("evaluations")
             t.count("evaluations_" + case["kind"])
@@ -669,9 +781,9 @@ def run(ctx):
     global _SCRATCH, _QUICK
     _QUICK = ctx.quick
     groups = all_groups(ctx.quick)
-    expected = sum(len(group_cases(g, ctx.quick)) for g in groups)
+    expected = sum(len(group_cases(g, ctx.quick)) for g in groups) + len(history_cases(ctx.quick))
     nshards = 128
-    shards = [(i, groups[i::nshards]) for i in range(nshards)]
+    shards = [(i, groups[i::nshards] + [("history", i, nshards)]) for i in range(nshards)]
     k = ctx.seed % nshards
     shards = shards[k:] + shards[:k]
     _SCRATCH = tempfile.mkdtemp(prefix="verif-c23-", dir="/tmp")
@@ -706,6 +818,8 @@ def run(ctx):
                 "multi_sample_edits": "all 2- and 3-subsets of positions for pictures of <= %d samples at depths %s"
                 % ((12, "1,8,10,64") if ctx.quick else (16, "1,2,7,8,9,10,16,17,31,32,33,63,64")),
             },
+            "difference_mask": "every 'none' and sample edit of the index pattern at depth pairs %r repeated with a difference mask requested (the same report and exit status are required; the mask's contents are not judged)" % (MASK_DEPTHS,),
+            "shared_video_parameters_histories": "%d histories: 2 and 3 consecutive different formats from %r written / read / compared through ONE VideoParameters object edited in place (or the object returned by read_metadata, edited in place)" % (len(history_cases(ctx.quick)), HISTORY_FORMATS),
             "space_size": expected,
             "groups": len(groups),
         },
